@@ -29,6 +29,9 @@ for name in sorted(os.listdir(HERE)):
         if not harnesses and unconf:
             result = "flagged by the solver, not reproduced natively (exit 2)"
             harnesses = unconf
+    tm = re.search(r"targeted run: --only (\S+)", open(lp, errors="replace").read()) if os.path.isfile(lp) else None
+    if tm:
+        result += f" (targeted run: --only {tm.group(1)})"
     meta["detected_by"] = harnesses
     meta["detection_result"] = re.sub(r"\*", "", result)
     json.dump(meta, open(mp, "w"), indent=1)
